@@ -102,3 +102,20 @@ Theorem C17_source_facts :
   gen_stream_data_dispatch_order = stream_data_dispatch_order.
 Proof. repeat split; reflexivity. Qed.
 Print Assumptions C17_source_facts.
+
+(** What does hold for exit.Handler / forward.Handler: in every history in
+    which no stream id is opened while it is in use, connCount equals the
+    number of connection records at every point - 0 when none is left.  The
+    leak is exactly the id collision. *)
+Theorem C17_counter_exact_without_collisions : forall ops maxc,
+  collision_free (book_init maxc) ops ->
+  let b := brun (book_init maxc) ops in
+  count b = Z.of_nat (length (conns b)) /\ (conns b = [] -> count b = 0%Z).
+Proof. exact counter_exact_without_collisions. Qed.
+Print Assumptions C17_counter_exact_without_collisions.
+
+Theorem C17_counter_exact_nonvacuous :
+  collision_free (book_init 3) [BOpen 1 1; BOpen 2 3; BData 1 1 0 7; BClose 1 1; BDestClose 1; BOpen 2 1; BReset 2 1] /\
+  count (brun (book_init 3) [BOpen 1 1; BOpen 2 3; BData 1 1 0 7; BClose 1 1; BDestClose 1; BOpen 2 1; BReset 2 1]) = 0%Z.
+Proof. exact counter_exact_nonvacuous. Qed.
+Print Assumptions C17_counter_exact_nonvacuous.
